@@ -3,9 +3,11 @@ package props
 import (
 	"fmt"
 	"io"
+	"math"
 	"reflect"
 	"strings"
 	"testing"
+	"time"
 
 	"github.com/goghcrow/yae"
 	"github.com/goghcrow/yae/compiler"
@@ -522,11 +524,111 @@ func checkRepeat(c *ProgCase) *Outcome {
 var c13repeatOpt = gen.ProgOpt{Fuel: 4, Partial: true, Sugar: false, Maybe: true, Times: true, Print: true}
 var c13repeat = Register(&Prop[ProgCase]{ID: "C13", Name: "repeat", Gen: genProgCase(c13repeatOpt, nil), Check: checkRepeat})
 
+// ---- Go maps as host data: Go iterates a map in a different order every time, conversion
+// inserts in that order; nothing a program can observe may depend on it
+
+type HostMapCase struct {
+	Kind string `json:"kind"` // time-subsecond | float-neighbours | string | int | time-zones
+	N    int    `json:"n"`    // number of entries (2..6)
+}
+
+func hostMapKeys(kind string) []interface{} {
+	t0 := time.Unix(1600000000, 0).UTC()
+	switch kind {
+	case "time-subsecond":
+		return []interface{}{t0, t0.Add(1), t0.Add(500 * time.Millisecond), t0.Add(999999999), t0.Add(time.Second), t0.Add(-1)}
+	case "time-zones":
+		z := time.FixedZone("CST", 8*3600)
+		return []interface{}{t0, t0.Add(time.Hour).In(z), t0.Add(2 * time.Hour), t0.Add(3 * time.Hour).In(z), t0.Add(4 * time.Hour), t0.Add(5 * time.Hour).In(z)}
+	case "float-neighbours":
+		a, b := 1700000000.0121, 8388609.3
+		return []interface{}{a, math.Nextafter(a, math.Inf(1)), b, math.Nextafter(b, math.Inf(1)), 0.1, math.Nextafter(0.1, 1)}
+	case "string":
+		return []interface{}{"a", "a ", "A", "", "\"a\"", "é"}
+	default:
+		return []interface{}{int64(0), int64(1), int64(-1), int64(1) << 53, int64(1)<<53 + 1, int64(-1) << 62}
+	}
+}
+
+func checkHostMap(c *HostMapCase) *Outcome {
+	keys := hostMapKeys(c.Kind)
+	if c.N < 2 || c.N > len(keys) {
+		return skip("bad-size")
+	}
+	keys = keys[:c.N]
+	build := func() map[string]interface{} {
+		mt := reflect.MapOf(reflect.TypeOf(keys[0]), reflect.TypeOf(""))
+		mv := reflect.MakeMap(mt)
+		env := map[string]interface{}{}
+		for i, k := range keys {
+			mv.SetMapIndex(reflect.ValueOf(k), reflect.ValueOf(fmt.Sprintf("v%d", i)))
+			env[fmt.Sprintf("k%d", i)] = k
+		}
+		env["m"] = mv.Interface()
+		return env
+	}
+	progs := []string{"string(m)", "string(len(m))", "string([m, m])", "string(m == m)"}
+	look := ""
+	for i := range keys {
+		if i > 0 {
+			look += " + \"/\" + "
+		}
+		look += fmt.Sprintf("get(m, k%d, \"none\")", i)
+	}
+	progs = append(progs, look, fmt.Sprintf("string(isset(m, k%d))", c.N-1), fmt.Sprintf("m[k%d]", c.N/2))
+	for _, src := range progs {
+		first := ""
+		for rep := 0; rep < 24; rep++ {
+			env := build() // a fresh Go map each time: its iteration order is random per map and per range
+			var v *val.Val
+			var err error
+			closureBE := rep%2 == 1
+			p := run.Guard(func() {
+				if closureBE {
+					var cl yae.Callable
+					cl, err = yae.NewExpr().UseClosureCompiler().Compile(src, env)
+					if err == nil {
+						v, err = cl(env)
+					}
+				} else {
+					v, err = yae.Eval(src, env)
+				}
+			})
+			text := ""
+			switch {
+			case p != nil:
+				text = "panic: " + p.Text
+			case err != nil:
+				text = "error: " + err.Error()
+			default:
+				text = v.String()
+			}
+			if rep == 0 {
+				first = text
+			} else if text != first {
+				return bad("%s over a Go map with %d %s keys gives %q and then %q (only the map's iteration order can have changed)", src, c.N, c.Kind, first, text)
+			}
+		}
+	}
+	return ok(true, "host-map-iteration-order:"+c.Kind)
+}
+
+var c13hostmap = Register(&Prop[HostMapCase]{ID: "C13", Name: "host-map-order", Check: checkHostMap})
+
 func TestC13(t *testing.T) {
-	R.Rule = "histories of 3-25 operations over a pool of <= 4 expressions (results with multi-entry maps, objects, set operations, string(x), print), three engine instances (VM, closure, VM) and deliberately reused environment objects (one raw *types.Env, two raw *val.Env with different contents, host structs and maps): compile(expr, type object) on engine i; invoke(callable, value object); one-shot Eval; Debug; render an earlier result 16 times; one compile in three wraps the expression in a template calling the identity host function nest, and while nest runs inside an invocation another callable - possibly the very one being evaluated - is invoked to completion (an invocation nested in an evaluation, depth <= 2); oracle after every step: outcome = the reference evaluator on (expression, environment contents) alone, captured standard output = exactly the print lines, host values deep-equal to an identically built twin, every binding of the raw value environments reads as before, renderings never vary, an environment object used once is accepted again; plus repeated fresh evaluation of single programs (6 x 2 back ends) with identical result text and output; plus one source text (13 templates over overloaded / polymorphic built-ins) compiled 2-5 times on ONE engine against environments that give its variables different types, each step compared with a fresh engine, and the same text parsed once (Expr.Parse) with that one tree compiled at every step (Expr.CompileExpr), closures compiled earlier re-invoked after every later compilation; non-trivial = an environment object reused after another operation and a result with a multi-entry map or >= 2 results"
+	R.Rule = "histories of 3-25 operations over a pool of <= 4 expressions (results with multi-entry maps, objects, set operations, string(x), print), three engine instances (VM, closure, VM) and deliberately reused environment objects (one raw *types.Env, two raw *val.Env with different contents, host structs and maps): compile(expr, type object) on engine i; invoke(callable, value object); one-shot Eval; Debug; render an earlier result 16 times; one compile in three wraps the expression in a template calling the identity host function nest, and while nest runs inside an invocation another callable - possibly the very one being evaluated - is invoked to completion (an invocation nested in an evaluation, depth <= 2); oracle after every step: outcome = the reference evaluator on (expression, environment contents) alone, captured standard output = exactly the print lines, host values deep-equal to an identically built twin, every binding of the raw value environments reads as before, renderings never vary, an environment object used once is accepted again; plus Go maps as host data (time keys within one second and in two zones, neighbouring floats, strings, large integers; 2-6 entries) evaluated 24 times each through string / len / == / get / isset / subscript with identical outcomes; plus repeated fresh evaluation of single programs (6 x 2 back ends) with identical result text and output; plus one source text (13 templates over overloaded / polymorphic built-ins) compiled 2-5 times on ONE engine against environments that give its variables different types, each step compared with a fresh engine, and the same text parsed once (Expr.Parse) with that one tree compiled at every step (Expr.CompileExpr), closures compiled earlier re-invoked after every later compilation; non-trivial = an environment object reused after another operation and a result with a multi-entry map or >= 2 results"
 	R.Assume = []string{"ref.Eval and the characterised rendering of print"}
 	reportKnown(t, "C13")
 	runRegress(t, "C13")
+	c13hostmap.Each(t, "host-map-kinds", func(yield func(*HostMapCase) bool) {
+		for _, k := range []string{"time-subsecond", "time-zones", "float-neighbours", "string", "int"} {
+			for n := 2; n <= 6; n++ {
+				if !yield(&HostMapCase{Kind: k, N: n}) {
+					return
+				}
+			}
+		}
+	})
 	c13.Run(t, budget(1500, 96000))
 	c13repeat.Run(t, budget(1500, 96000))
 	c13recompile.Run(t, budget(1500, 96000))
